@@ -29,3 +29,12 @@ Theorem C14_non_string_scalars_untouched : forall collapse v,
   match v with VInt _ | VFloat _ | VBool _ | VNull | VEnum _ | VVar _ => wire_value collapse v = Some v | _ => True end.
 Proof. intros collapse v. destruct v; exact I || reflexivity. Qed.
 Print Assumptions C14_non_string_scalars_untouched.
+
+(* The full characterisation of what a service reads for a string the gateway prints: either the document does not lex at all
+   (the string contains a byte whose Go escape is not a GraphQL escape: the recorded finding), or it reads EXACTLY the
+   client's string.  No string is ever silently altered by the printer/lexer pair (the whitespace collapse of format.go:202
+   is the other recorded finding and is a separate function). *)
+From V Require Import Proofs.WireIdent.
+Theorem C14_string_arrives_exactly_or_not_at_all : forall s s', wire_string s = Some s' -> s' = s /\ gql_safe s = true.
+Proof. exact wire_string_identity. Qed.
+Print Assumptions C14_string_arrives_exactly_or_not_at_all.
